@@ -997,6 +997,17 @@ class Session:
                 # already merged: only the no-op (same group) is a valid call
                 kept = nan_lead
             return {"feature": feat, "mode": "group", "discarded": float("nan"), "kept": kept, "kind": kindw, "what": "nan"}
+        if mode == "replace" and model.kind[feat] == "qual" and op["a"] % 4 == 0:
+            # renaming the group of the missing values (they form a group of their own)
+            nan_lead = model.nan_group(feat)
+            new_name = f"missing_{op.get('id', 0)}_{op['b'] % 7}"
+            if (
+                nan_lead is not None
+                and isinstance(nan_lead, str)
+                and nan_lead == nan
+                and not any(model.group_of(f, new_name) is not None for f in model.features)
+            ):
+                return {"feature": feat, "mode": "replace", "discarded": float("nan"), "kept": new_name, "kind": kindw, "what": "replace_nan"}
         if mode == "replace" and model.kind[feat] == "quant":
             # on a quantitative feature the leader is the interval's upper bound: 'replace' moves
             # that bound (the old bound stays in the group as a member).  Generated so that the
@@ -1078,7 +1089,7 @@ class Session:
             outcomes.append(self.lib(obj.update_discretizer, feat, edit["mode"], edit["discarded"], edit["kept"]))
         outcome = outcomes[0]
         self.log.add("live", "edit", digest(canon(edit)), outcome[0])
-        self.stats.fault({"group": "edit_group", "nan": "edit_nan", "replace": "edit_replace"}[edit["what"]])
+        self.stats.fault({"group": "edit_group", "nan": "edit_nan", "replace": "edit_replace", "replace_nan": "edit_replace_nan"}[edit["what"]])
         if edit.get("moves_bound"):
             self.stats.probe("edit_replace_moves_quantile_bound")
         quant_down = edit["kind"] == "quant" and edit["what"] == "group" and not edit.get("up", True)
@@ -1095,14 +1106,14 @@ class Session:
         if len(outcomes) > 1 and outcomes[1][0] != "ok":
             raise _Fail("C06", "same_outcome_after_reload", f"{where}: accepted by the reloaded object, {outcomes[1][0]} on the original")
         # the model applies the edit by its own rules
-        nan_edit = edit["what"] == "nan"
+        nan_edit = edit["what"] in ("nan", "replace_nan")
         discarded = model.str_nan if nan_edit else edit["discarded"]
         already = model.group_of(feat, discarded)
         changed = True
         if already is not None and same(already, edit["kept"]) and (nan_edit or edit["mode"] == "group") and not same(discarded, edit["kept"]):
             changed = False  # "already grouped" warning, no-op
         elif edit["mode"] == "replace":
-            model.edit_rename(feat, edit["discarded"], edit["kept"])
+            model.edit_rename(feat, discarded, edit["kept"])
         else:
             model.edit_group(feat, discarded, edit["kept"])
         if nan_edit:
